@@ -157,6 +157,29 @@ pub struct DH {
 }
 show_struct!(DH, cores, checksum, opt_q, opt_c, count);
 
+/// a token-keyed parent with a nested token-keyed derived struct: keys the child ignores are keys the parent reads
+#[derive(JominiDeserialize, Debug)]
+pub struct DJ {
+    #[jomini(token = 0x2f03)]
+    id: u32,
+    #[jomini(token = 0x2f05, default)]
+    tag: String,
+}
+show_struct!(DJ, id, tag);
+
+#[derive(JominiDeserialize, Debug)]
+pub struct DI {
+    #[jomini(token = 0x2f00)]
+    sub: DJ,
+    #[jomini(token = 0x2f01, duplicated)]
+    core: Vec<String>,
+    #[jomini(token = 0x2f02, default)]
+    next: u32,
+    #[jomini(token = 0x2f04)]
+    req: bool,
+}
+show_struct!(DI, sub, core, next, req);
+
 #[derive(JominiDeserialize, Debug)]
 pub struct DSub {
     id: u32,
@@ -226,6 +249,8 @@ pub fn dispatch(kind: &str, a: &[&str]) -> Option<String> {
                 "DB" => fin(run_text::<DB>(path, e, &data, &mut s)),
                 "DG" => fin(run_text::<DG>(path, e, &data, &mut s)),
                 "DH" => fin(run_text::<DH>(path, e, &data, &mut s)),
+                "DI" => fin(run_text::<DI>(path, e, &data, &mut s)),
+                "DJ" => fin(run_text::<DJ>(path, e, &data, &mut s)),
                 "DC" => fin(run_text::<DC>(path, e, &data, &mut s)),
                 "DD" => fin(run_text::<DD>(path, e, &data, &mut s)),
                 "DE" => fin(run_text::<DE>(path, e, &data, &mut s)),
@@ -247,6 +272,8 @@ pub fn dispatch(kind: &str, a: &[&str]) -> Option<String> {
                 "DB" => fin(run_bin::<DB>(path, sg, &res, f, &data, &mut s)),
                 "DG" => fin(run_bin::<DG>(path, sg, &res, f, &data, &mut s)),
                 "DH" => fin(run_bin::<DH>(path, sg, &res, f, &data, &mut s)),
+                "DI" => fin(run_bin::<DI>(path, sg, &res, f, &data, &mut s)),
+                "DJ" => fin(run_bin::<DJ>(path, sg, &res, f, &data, &mut s)),
                 "DC" => fin(run_bin::<DC>(path, sg, &res, f, &data, &mut s)),
                 "DD" => fin(run_bin::<DD>(path, sg, &res, f, &data, &mut s)),
                 "DE" => fin(run_bin::<DE>(path, sg, &res, f, &data, &mut s)),
